@@ -1407,14 +1407,34 @@ def _phase_check(prog, cg, T, f, reader_fns):
         for m in G.body.find("MemberExpr"):
             if m.d.get("rec") == T and m.d["field"] == f and access_mode(m) in ("write",):
                 writers.add(G.name)
+    def write_positions(G, must):
+        cfg = G.cfg
+        w = [cfg.position(m) for m in G.body.find("MemberExpr")
+             if m.d.get("rec") == T and m.d["field"] == f and access_mode(m) == "write"]
+        w += [cfg.position(c) for c in G.body.calls() if c.callee in must]
+        return [x for x in w if x is not None]
+    # helpers that set the field on every path to their exit (aln_split_setup): a call to one is a write in the caller
+    must = set()
+    for _ in range(3):
+        grew = False
+        for G in prog.lib_functions():
+            if G.name in must or G.cfg is None:
+                continue
+            wp = write_positions(G, must)
+            if wp and not G.cfg.reaches(None, G.cfg.exit, avoid=wp):
+                must.add(G.name)
+                grew = True
+        if not grew:
+            break
+    for G in prog.lib_functions():
+        if G.name not in must and any(c.callee in must for c in G.body.calls()):
+            writers.add(G.name)
     for name in sorted(writers):
         G = cg.defined.get(name)
         if G is None:
             continue
         cfg = G.cfg
-        wpos = [cfg.position(m) for m in G.body.find("MemberExpr")
-                if m.d.get("rec") == T and m.d["field"] == f and access_mode(m) == "write"]
-        wpos = [x for x in wpos if x is not None]
+        wpos = write_positions(G, must)
         for c in G.body.calls():
             if c.callee in readers or (c.callee in reach_reader and c.callee not in writers):
                 cp = cfg.position(c)
